@@ -44,6 +44,29 @@ def check_artefact(ctx, a, stats):
     # their surfaces; calibrated: worst observed on the pinned tree 0.09x this bound
     dtol = 300.0 * (rtol * 2.0 + atol)
     worst = 0.0
+    # "through the corresponding point of the separatrix skeleton": every radial segment of one
+    # poloidal region is built from the same skeleton, so the regridded skeletons handed to the
+    # segments must coincide point by point
+    by_eq = {}
+    for reg in side["regions"]:
+        by_eq.setdefault(reg["eqname"], []).append(reg)
+    for eqname, segs in by_eq.items():
+        segs = sorted(segs, key=lambda r: r["radialIndex"])
+        s0 = segs[0]["skeleton"]
+        for sg in segs[1:]:
+            stats["skeleton_pairs"] += 1
+            sk = sg["skeleton"]
+            if sk.shape != s0.shape:
+                ctx.violation("orth | radial segments of one region are built from skeletons of different length",
+                              dict(config=a.config["label"], region=eqname, shapes=[list(s0.shape), list(sk.shape)]),
+                              replay=dict(config=a.config))
+                continue
+            dd = float(np.hypot(sk[:, 0] - s0[:, 0], sk[:, 1] - s0[:, 1]).max())
+            ctx.setmax("worst_skeleton_mismatch_between_radial_segments_m", dd)
+            if dd > 1e-7:
+                ctx.violation("orth | radial segments of one region start from different separatrix skeleton points",
+                              dict(config=a.config["label"], region=eqname, segment=sg["radialIndex"], distance=dd),
+                              replay=dict(config=a.config))
     for reg in side["regions"]:
         nx, ny = reg["nx"], reg["ny"]
         inside = reg["radialIndex"] < reg["separatrix_radial_index"]
@@ -127,7 +150,7 @@ def run(ctx, arts=None, pairs=True):
         arts = gu.select(ctx.tier, log=ctx.log, extra=nx_pairs(ctx.tier) if pairs else None)
     arts = gu.rotate(arts, ctx.seed)
     stats = dict(lines=0, points=0, lines_through_xpoint_skipped=0, lines_outside_domain_skipped=0,
-                 lines_not_integrable=0)
+                 lines_not_integrable=0, skeleton_pairs=0)
     n = refused = 0
     for a in arts:
         if not a.ok:
